@@ -635,3 +635,57 @@ def rule_guard_passed_along(ctx, rep, rid: str, only_pred=None, floor: int = 1) 
             rep.ok(rid, key, {"guard_parameters": [p for p, _ in guard_params], "recursive_calls": len(calls)})
     if n == 0:
         rep.ok(rid, "no-parameter-carried-guard")
+
+
+# ---- what a converter pushes on its path it pops on every way out ------------------------------------------
+def rule_path_entries_released(ctx, rep, rid: str, only_pred) -> None:
+    """A converter that registers the container it is working on in a path list (directly, or through a helper
+    that appends to the list it is given) has to take it off again on every normal way out: an early `return`
+    between the push and the `try/finally` that pops leaves the container registered, so a sibling that refers to it
+    again looks like a cycle and every such leftover eats nesting budget."""
+    rep.rule(rid, "in the boundary converters and serializers, every path from a push onto the path/guard list (an append, or a helper that appends to the list it is handed) to a normal exit passes the matching pop: nothing returns between the push and the try/finally that undoes it", floor=2)
+    # helpers that append to a parameter: name -> parameter position (self excluded)
+    pushers: Dict[str, int] = {}
+    for h in ctx.tree.funcs:
+        if isinstance(h.node, ast.Lambda):
+            continue
+        ps = [p for p in h.params() if p != "self"]
+        for c in h.own_nodes():
+            if isinstance(c, ast.Call) and isinstance(c.func, ast.Attribute) and c.func.attr in ("append", "add") and isinstance(c.func.value, ast.Name) and c.func.value.id in ps and not any(isinstance(x, ast.Call) and isinstance(x.func, ast.Attribute) and x.func.attr in ("pop", "discard", "remove") and norm(x.func.value) == c.func.value.id for x in h.own_nodes()):
+                pushers[h.name] = ps.index(c.func.value.id)
+    n = 0
+    for f in ctx.tree.funcs:
+        if isinstance(f.node, ast.Lambda) or not only_pred(f.qual):
+            continue
+        pushes = []  # (node, list name)
+        for c in f.own_nodes():
+            if not isinstance(c, ast.Call):
+                continue
+            if isinstance(c.func, ast.Attribute) and c.func.attr in pushers and norm(c.func.value) in ("self", "ctx") and len(c.args) > pushers[c.func.attr] and isinstance(c.args[pushers[c.func.attr]], ast.Name):
+                pushes.append((c, c.args[pushers[c.func.attr]].id))
+            elif isinstance(c.func, ast.Name) and c.func.id in pushers and len(c.args) > pushers[c.func.id] and isinstance(c.args[pushers[c.func.id]], ast.Name):
+                pushes.append((c, c.args[pushers[c.func.id]].id))
+            elif isinstance(c.func, ast.Attribute) and c.func.attr == "append" and isinstance(c.func.value, ast.Name) and c.func.value.id in ("path", "_path", "seen", "stack_path") and f.name not in pushers:
+                pushes.append((c, c.func.value.id))
+        if not pushes:
+            continue
+        cfg = ctx.facts.cfg(f)
+        for c, lst in pushes:
+            pops = {nd.id for nd in cfg.nodes if nd.ast is not None and any(isinstance(x, ast.Call) and isinstance(x.func, ast.Attribute) and x.func.attr in ("pop", "discard", "remove") and norm(x.func.value) == lst for x in ast.walk(nd.ast))}
+            if not pops:
+                continue  # a list that is never popped here: not a path (judged by the scope rules)
+            n += 1
+            key = f"{f.qual}:{short(c, 40)}:released"
+            start = [nd for nd in cfg.nodes if nd.ast is not None and any(x is c for x in ast.walk(nd.ast))]
+            bad = None
+            for s in start:
+                # exits by `return` / falling off the end; raising is the refusal of the whole conversion
+                p = cfg.path_avoiding(s.id, lambda nd: nd.id == cfg.exit.id, pops, None, start_succ=True)
+                if p is not None and not any(x.kind == "raise" for x in p):
+                    bad = p
+            if bad is None:
+                rep.ok(rid, key)
+            else:
+                rep.bad(rid, key, f"{f.qual} pushes onto `{lst}` with `{short(c, 40)}` and can return through lines {[x.line for x in bad if x.line][:6]} without popping it (its other exits pop in a finally): the container stays on the path, so a second reference to it is reported as a cycle and every leftover uses up nesting budget", f"{f.module.rel}:{c.lineno}")
+    if n < 2:
+        raise AnalysisError(f"{rid}: only {n} push/pop pairs found in the converters")
